@@ -31,6 +31,8 @@ type Frame struct {
 	ip     int
 	regs   []Value
 	retReg int // register index in the caller (-1: none)
+	defers []*ssa.Defer // deferred calls (operands are evaluated at the defer statement)
+	dargs  [][]Value
 }
 
 type State struct {
@@ -50,6 +52,7 @@ type State struct {
 	simpMemo map[int]*Term          // memo of simp under the current known map
 	bounds   *bounds                // learned intervals
 	docs     map[int]*jsonDoc       // JSON stub documents by byte-slice object (copy on write)
+	pools    map[[2]int][]Value     // sync.Pool contents by pool address (copy on write)
 }
 
 type pendingAssert struct {
@@ -255,6 +258,7 @@ func (st *State) clone(ex *Executor) *State {
 	c.pending_ = append([]pendingAssert(nil), st.pending_...)
 	c.bounds = st.bounds.clone()
 	c.docs = st.docs
+	c.pools = st.pools
 	c.heap = append([]*Object(nil), st.heap...)
 	st.gen = ex.newGen()
 	c.gen = ex.newGen()
@@ -262,6 +266,8 @@ func (st *State) clone(ex *Executor) *State {
 	for i, f := range st.frames {
 		nf := *f
 		nf.regs = append([]Value(nil), f.regs...)
+		nf.defers = append([]*ssa.Defer(nil), f.defers...)
+		nf.dargs = append([][]Value(nil), f.dargs...)
 		c.frames[i] = &nf
 	}
 	ex.Forks++
@@ -1096,7 +1102,30 @@ func (ex *Executor) step(st *State) {
 		if ex.call(st, fr, x) {
 			return // a new frame was pushed (ip of the caller advanced already)
 		}
+	case *ssa.Defer:
+		var vals []Value
+		cc := x.Common()
+		if cc.IsInvoke() {
+			unsupported("defer of an interface method call")
+		}
+		if _, isB := cc.Value.(*ssa.Builtin); isB {
+			unsupported("defer of a builtin")
+		}
+		vals = append(vals, ex.val(st, fr, cc.Value))
+		for _, a := range cc.Args {
+			vals = append(vals, ex.val(st, fr, a))
+		}
+		fr.defers = append(fr.defers, x)
+		fr.dargs = append(fr.dargs, vals)
 	case *ssa.RunDefers:
+		if n := len(fr.defers); n > 0 {
+			d, vals := fr.defers[n-1], fr.dargs[n-1]
+			fr.defers, fr.dargs = fr.defers[:n-1], fr.dargs[:n-1]
+			if ex.callDeferred(st, fr, d, vals) {
+				return // a frame was pushed; RunDefers is executed again when it returns
+			}
+			return // stay on this instruction until all deferred calls have run
+		}
 	default:
 		unsupported("instruction %T", in)
 	}
